@@ -866,6 +866,10 @@ class Project(MessageHandler):
         """Check if a scoreboard slot is working time."""
         if self.scoreboard is None:
             return self._isDefaultWorkingTime(self.idxToDate(sbIdx))
+        if sbIdx < 0 or sbIdx >= self.scoreboard.size:
+            # Outside the scheduling horizon nothing is working time (a negative index must
+            # not wrap around to the end of the table, a large one must not raise)
+            return False
         result: Any = self.scoreboard[sbIdx]
         return result is None
 
